@@ -144,11 +144,16 @@ func (l *loginInboundConn) handleLoginPluginResponse(res *packet.LoginPluginResp
 
 	// After the consumer ran (it may have queued more messages), fire the
 	// all-handled callback if nothing is outstanding.
+	// The callback is taken out under the lock so that it runs at most once,
+	// however many responses (or goroutines) see "nothing outstanding".
 	l.mu.Lock()
-	done := len(l.outstandingResponses) == 0
-	onAllMessagesHandled := l.onAllMessagesHandled
+	var onAllMessagesHandled func() error
+	if len(l.outstandingResponses) == 0 {
+		onAllMessagesHandled = l.onAllMessagesHandled
+		l.onAllMessagesHandled = nil
+	}
 	l.mu.Unlock()
-	if done && onAllMessagesHandled != nil {
+	if onAllMessagesHandled != nil {
 		err = errors.Join(err, onAllMessagesHandled())
 	}
 	return err
@@ -157,10 +162,14 @@ func (l *loginInboundConn) handleLoginPluginResponse(res *packet.LoginPluginResp
 func (l *loginInboundConn) loginEventFired(onAllMessagesHandled func() error) error {
 	l.mu.Lock()
 	l.isLoginEventFired = true
-	l.onAllMessagesHandled = onAllMessagesHandled
 	msgs := make([]*packet.LoginPluginMessage, 0, l.loginMessagesToSend.Len())
 	for l.loginMessagesToSend.Len() != 0 {
 		msgs = append(msgs, l.loginMessagesToSend.PopFront())
+	}
+	if len(msgs) != 0 {
+		// kept for the response that answers the last outstanding message;
+		// with nothing outstanding it runs right below, once, and is not kept
+		l.onAllMessagesHandled = onAllMessagesHandled
 	}
 	l.mu.Unlock()
 
